@@ -37,7 +37,7 @@ static FV check19(const C19Case &c) {
   assemblyline_t f = asm_create_instance(bf.data(), N); al::apply_opts(f, combo_opts(c.combo)); asm_set_offset(f, c.start);
   int cf = -7, rf;
   std::vector<char> pth(path.begin(), path.end()); pth.push_back(0);
-  if (c.mode == 1) rf = asm_assemble_file_counting_chunks(f, pth.data(), c.chunk, &cf); else rf = asm_assemble_file(f, pth.data());
+  if (c.mode == 1) rf = asm_assemble_file_counting_chunks(f, pth.data(), c.chunk, &cf); else rf = (c.content.size() & 1) ? assemble_file(f, pth.data()) : asm_assemble_file(f, pth.data());
   int of = asm_get_offset(f);
   if (have_fi()) alw.guard_files = 0;
   if (c.special == 1 || c.special == 2) { asm_destroy_instance(f); if (rf != EXIT_FAILURE) return bad("missing-file-accepted", std::string(c.special == 1 ? "nonexistent path" : "directory") + " returned " + std::to_string(rf)); return v; }
